@@ -22,7 +22,7 @@ use shared::quoted_triple_store::{is_quoted_triple_id, QuotedTripleStore, QUOTED
 use shared::triple::Triple;
 use std::collections::{BTreeMap, BTreeSet, HashMap};
 
-const RULE: &str = "Four phases. dict: random call sequences (40-400 calls) on one Dictionary + one QuotedTripleStore (new / repeated terms from a pool of adversarial strings, components drawn from known plain ids, known quoted ids and unknown plain-range ids, decode of known and never-issued ids, Dictionary::decode_term, clone-and-continue) against an online shadow bijection, with a complete re-verification of every id issued so far at random checkpoints and at the end. star: call sequences on SparqlDatabase::encode_term_star / decode_any / add_quad_parts / add_triple_parts with terms nested 0-3 deep in several spellings of the same term (canonical, extra whitespace, bare IRIs/numbers, compact `<<s p o>>`, \\u escapes) against a shadow map keyed by the term tree. union: 2-3 databases built independently from build scripts (five writers, pre-encoded unreferenced terms, deletions, empty named graphs, seeds on plain and quoted triples) over a shared pool so that equal ids mean different terms and equal terms have different ids, followed by 1-3 union steps (A∪B, B∪A, chains through results, rebuilds of the same dataset under other ids, empty operands); after every step the result is compared with the model union (quads, catalog, seeds, quoted terms, dictionary terms, internal bijection of the merged dictionary/store), both inputs are compared bit for bit with their state before, and the result is extended with fresh terms. boundary: id counters placed next to the range limits. Non-trivial = dict/star sequence with >= 5 repeated and >= 5 new encodes and at least one nested quoted term; union step whose operands have >= 1 clashing id (same id, different term) that is referenced by quads on both sides and >= 1 term with different ids on the two sides; distinct by hash of the call sequence / build scripts.";
+const RULE: &str = "Four phases. dict: random call sequences (40-400 calls; 1 in 100 (thorough 1 in 20) with 1500-6000 calls over 500-3000 further terms) on one Dictionary + one QuotedTripleStore (new / repeated terms from a pool of adversarial strings, components drawn from known plain ids, known quoted ids and unknown plain-range ids, decode of known and never-issued ids, Dictionary::decode_term, clone-and-continue) against an online shadow bijection, with a complete re-verification of every id issued so far at random checkpoints and at the end. star: call sequences on SparqlDatabase::encode_term_star / decode_any / add_quad_parts / add_triple_parts with terms nested 0-3 deep in several spellings of the same term (canonical, extra whitespace, bare IRIs/numbers, compact `<<s p o>>`, \\u escapes) against a shadow map keyed by the term tree; half of the sequences use only the N-Triples-star spellings (canonical, whitespace, \\u escapes), a sequence stops at its first defect and the defect is re-established by one call on a fresh database, on the smallest failing sub-term, with a direct call of split_quoted_triple_content. union: 2-3 databases built independently from build scripts (five writers, pre-encoded unreferenced terms, deletions, empty named graphs, seeds on plain and quoted triples) over a shared pool so that equal ids mean different terms and equal terms have different ids, followed by 1-3 union steps (A∪B, B∪A, chains through results, rebuilds of the same dataset under other ids, empty operands); after every step the result is compared with the model union (quads, catalog, seeds, quoted terms, dictionary terms, internal bijection of the merged dictionary/store), both inputs are compared bit for bit with their state before, and the result is extended with fresh terms. boundary: id counters placed next to the range limits. Non-trivial = dict/star sequence with >= 5 repeated and >= 5 new encodes and at least one nested quoted term; union step whose operands have >= 1 clashing id (same id, different term) that is referenced by quads on both sides and >= 1 term with different ids on the two sides; distinct by hash of the call sequence / build scripts.";
 
 // ---------------------------------------------------------------------------------------
 // structural term model
